@@ -8,6 +8,7 @@ import (
 	"unsafe"
 
 	"google.golang.org/protobuf/encoding/protowire"
+	"google.golang.org/protobuf/proto"
 	"google.golang.org/protobuf/reflect/protoreflect"
 	"google.golang.org/protobuf/runtime/protoiface"
 )
@@ -258,10 +259,11 @@ func contract_MessageInfo_unmarshalExtension(mi *MessageInfo, b []byte, num prot
 // of them - for a map key coder that can only be the invalid-UTF-8 error - is never dropped:
 // whenever a callee returned a non-nil error, appendMapItem returns a non-nil error.
 //
-// @ props C13
+// @ props C13 C05
 // @ mode int
 // @ guard-errors
 // @ nopanic
+// @ callsite *.marshalAppendPointer: arg[marshalOptions](2) == opts
 func contract_appendMapItem(b []byte, keyrv, valrv reflect.Value, mapi *mapInfo, f *coderFieldInfo, opts marshalOptions) (r []byte, err error) {
 	domain(mapi != nil && f != nil) // set for every map field by the table constructor
 	modifiesAll()
@@ -352,6 +354,34 @@ func contract_MessageInfo_unmarshal(mi *MessageInfo, in protoiface.UnmarshalInpu
 // @ props C05
 func contract_marshalOptions_Deterministic(o marshalOptions) (r bool) {
 	ensures(r == (o.flags&protoiface.MarshalDeterministic != 0))
+	return
+}
+
+// Options: the proto.MarshalOptions handed to nested messages of the reflective coders carry the
+// same Deterministic and UseCachedSize requests (and AllowPartial: the check is the caller's).
+//
+// @ props C05
+func contract_marshalOptions_Options(o marshalOptions) (r proto.MarshalOptions) {
+	ensures(r.Deterministic == (o.flags&protoiface.MarshalDeterministic != 0))
+	ensures(r.UseCachedSize == (o.flags&protoiface.MarshalUseCachedSize != 0))
+	ensures(r.AllowPartial)
+	return
+}
+
+// @ props C05
+func contract_marshalOptions_UseCachedSize(o marshalOptions) (r bool) {
+	ensures(r == (o.flags&protoiface.MarshalUseCachedSize != 0))
+	return
+}
+
+// The fast-path entry point hands the caller's flag word to the table coders unchanged.
+//
+// @ props C05
+// @ mode int
+// @ nopanic
+// @ callsite mi.marshalAppendPointer: arg[marshalOptions](2).flags == in.Flags
+func contract_MessageInfo_marshal(mi *MessageInfo, in protoiface.MarshalInput) (out protoiface.MarshalOutput, err error) {
+	modifiesAll()
 	return
 }
 
